@@ -144,16 +144,27 @@ def matches(exp_state, r):
     return True
 
 
-def apply_pairs(pre, pairs):
+def own_formal_uris(kind_or_record):
+    if isinstance(kind_or_record, ProvRecord):
+        return {a.uri for a in kind_or_record.FORMAL_ATTRIBUTES}
+    return {pools.PROV_URI + f for f in pools.KINDS[kind_or_record][1]}
+
+
+def apply_pairs(pre, pairs, own=None):
     """Transition model of add_attributes.  Returns (status, states) where states is the
     list of acceptable post states (wildcards possible)."""
     post = {a: list(vs) for a, vs in pre.items()}
     names = [a for a, _ in pairs]
     multi_member = MEMBER_COLLECTION in names and names.count(MEMBER_ENTITY) > 1
+    own = FORMAL_URIS if own is None else own
+    if any(a in FORMAL_URIS and a not in own for a, _ in pairs):
+        # a PROV formal attribute that is not formal for *this* record kind: whether the
+        # single-value rule extends to it is not promised
+        return ("unknown", [post])
     for a, v in pairs:
         if v is None:
             continue
-        if a in FORMAL_URIS and post.get(a) and not (multi_member and a == MEMBER_ENTITY):
+        if a in own and post.get(a) and not (multi_member and a == MEMBER_ENTITY):
             ex = post[a][0]
             if isinstance(v, WildQN) or isinstance(ex, WildQN):
                 return ("unknown", [post])
@@ -304,8 +315,9 @@ class C05(Oracle):
     def normal_form(self, r, where):
         self.count("normal_form_checks")
         st = state_of(r)
+        own = own_formal_uris(r)
         for a, vs in st.items():
-            if a in FORMAL_URIS:
+            if a in own:
                 if len(vs) > 1:
                     raise Violation("C05", "single-valued", a.rsplit("#", 1)[-1],
                                     {"record": repr(observe.rec_obs(r)), "where": where, "attribute": a,
@@ -359,7 +371,7 @@ class C05(Oracle):
         if mp is None:
             self.count("transition_unmodelled")
             return
-        status, states = apply_pairs({}, mp)
+        status, states = apply_pairs({}, mp, own_formal_uris(kind))
         if status == "unknown":
             self.count("transition_unmodelled")
             return
@@ -409,7 +421,7 @@ class C05(Oracle):
         if mp is None:
             self.count("transition_unmodelled")
             return
-        status, states = apply_pairs(pre, mp)
+        status, states = apply_pairs(pre, mp, own_formal_uris(r))
         if status == "unknown":
             self.count("transition_unmodelled")
             return
